@@ -51,6 +51,12 @@ func (r Raw) TypeString() string {
 }
 
 func (r Raw) Value() string {
+	// Only universal primitive elements have a type-specific rendering: the tag number
+	// of an application, context-specific or private element says nothing about its content.
+	if r.Class != asn1.ClassUniversal || r.IsCompound {
+		return hex.EncodeToString(r.Bytes)
+	}
+
 	switch r.Tag {
 	case asn1.TagBoolean:
 		var b bool
@@ -78,6 +84,9 @@ func (r Raw) Value() string {
 		return hex.EncodeToString(r.Bytes)
 
 	case asn1.TagNull:
+		if len(r.Bytes) != 0 {
+			return hex.EncodeToString(r.Bytes)
+		}
 		return "null"
 
 	case asn1.TagOID:
